@@ -4,6 +4,7 @@ import (
 	"crypto/sha256"
 	"fmt"
 	"os"
+	"sort"
 	"strconv"
 	"strings"
 	"time"
@@ -373,9 +374,14 @@ func c17Worker(r *evid.Run, w, n int) {
 		}
 		return b
 	}
-	dl := deadline(r, 50*time.Second, 25*time.Minute)
+	dl := deadline(r, 55*time.Second, 25*time.Minute)
 	agg := &sched.Stats{Exhaustive: true, Outcomes: map[string]int64{}}
 	done := 0
+	// deal the expensive scenarios (higher bound, more threads) first so that the shards are balanced
+	sort.SliceStable(scs, func(i, j int) bool {
+		bi, bj := boundFor(scs[i])*10+len(scs[i].ops), boundFor(scs[j])*10+len(scs[j].ops)
+		return bi > bj
+	})
 	for i, sc := range scs {
 		if i%n != w {
 			continue
